@@ -25,13 +25,13 @@ theorem cpP_eq_cp : cpP = cp := rfl
 /-! ### 1. from `Refines` + frames to `Refines2` -/
 
 /-- A token other than DECSC / DECRC / ?1049h / ?1049l. -/
-def PlainTok (tok : Term.Tok) : Prop := tok ≠ .decsc ∧ tok ≠ .decrc ∧ tok ≠ .altOn ∧ tok ≠ .altOff
+def PlainTok (tok : Term.Tok) : Prop := tok ≠ .decsc ∧ tok ≠ .decrc ∧ tok ≠ .altOn ∧ tok ≠ .altOff ∧ tok ≠ .ris
 
 theorem refines2_of {t : Term.T} {e e' : Emu} {rows cols : Nat} (s2 : Sim2 t e rows cols)
-    (tok : Term.Tok) (h1 : tok ≠ .decsc) (h2 : tok ≠ .decrc) (h3 : tok ≠ .altOn) (h4 : tok ≠ .altOff)
+    (tok : Term.Tok) (h1 : tok ≠ .decsc) (h2 : tok ≠ .decrc) (h3 : tok ≠ .altOn) (h4 : tok ≠ .altOff) (h5 : tok ≠ .ris)
     (hr : Refines (Term.step t tok) e' rows cols) (fe : EFrame e e') (hl : LastColOk e' cols) :
     Refines2 (Term.step t tok) e' rows cols := by
-  have hf := step_frame t tok h1 h2 h3 h4
+  have hf := step_frame t tok h1 h2 h3 h4 h5
   revert hr hf
   generalize Term.step t tok = r
   intro hr hf
@@ -46,7 +46,7 @@ theorem step2_mk {t : Term.T} {e e' : Emu} {rows cols : Nat} (s2 : Sim2 t e rows
     {tok : Term.Tok} (hp : PlainTok tok) {op : EOp} {k : Nat} (hs : emuStep e op = .ok (e', k))
     (hr : Refines (Term.step t tok) e' rows cols) (fe : EFrame e e') (hl : LastColOk e' cols) :
     ∃ r, emuStep e op = .ok r ∧ Refines2 (Term.step t tok) r.1 rows cols :=
-  ⟨(e', k), hs, refines2_of s2 tok hp.1 hp.2.1 hp.2.2.1 hp.2.2.2 hr fe hl⟩
+  ⟨(e', k), hs, refines2_of s2 tok hp.1 hp.2.1 hp.2.2.1 hp.2.2.2.1 hp.2.2.2.2 hr fe hl⟩
 
 /-! ### dispatch -/
 
@@ -203,7 +203,7 @@ theorem c0_12 (e : Emu) : c0 Fixes.current e 12 = (do .ok (← lf e, 0)) := rfl
 
 /-! ### 2. one lemma per operation of the vocabulary -/
 
-local macro "plain_tok" : tactic => `(tactic| exact ⟨nofun, nofun, nofun, nofun⟩)
+local macro "plain_tok" : tactic => `(tactic| exact ⟨nofun, nofun, nofun, nofun, nofun⟩)
 
 section ops
 variable {t : Term.T} {e : Emu} {rows cols : Nat}
